@@ -768,3 +768,31 @@ Proof.
       destruct (IH dd st1 Hs Hp) as (d' & st' & H1 & H2 & H3 & H4) end.
     exists d', st'. repeat split; assumption.
 Qed.
+
+(** The iteration in which a resuming command is read: from a waiting debugger at a runnable state
+    that is not on HALT, the command is read, its status is armed and dispatched, and the
+    instruction at PC executes in the same iteration — breakpoint at PC or not ("resuming executes
+    the marked instruction once"). *)
+Lemma check_interrupts_wait d st : d_status d = WaitForAction -> d_status (check_interrupts d st) = WaitForAction.
+Proof. intros H. unfold check_interrupts. repeat break_match; cbn; auto. Qed.
+
+Definition after_exec1 (env : dbg_env) (script : list cmd) (d' : dbg) (st : state) (r : tick_result) : Prop :=
+  match vm_step (e_feat env) st with
+  | Running st' => r = TNext script (set_icount d' (d_icount d' + 1)) st' 1 1
+  | Exited c s => r = TStop 1 c s (set_icount d' (d_icount d' + 1)) 1 1
+  | Panicked s => r = TStop 2 0 s (set_icount d' (d_icount d' + 1)) 1 1
+  | Diverged => r = TStop 3 0 st (set_icount d' (d_icount d' + 1)) 1 1
+  end.
+
+Theorem tick_resume env c rest d st d1 d2 :
+  d_status d = WaitForAction -> at_halt st = false -> runnable st ->
+  run_command env c (check_interrupts d st) st = CmdNone d1 st ->
+  dispatch_status d1 st = (Some Proceed, d2) ->
+  after_exec1 env rest d2 st (tick env (c :: rest) d st).
+Proof.
+  intros Hs Hh Hr Hc Hd. unfold tick, next_action. unfold runnable in Hr. rewrite Hr. cbv beta iota zeta.
+  assert (Hs0 : d_status (check_interrupts d st) = WaitForAction) by (apply check_interrupts_wait; exact Hs).
+  unfold dispatch_status at 1. rewrite Hs0. cbn [wait_loop]. rewrite Hc, Hd.
+  rewrite Hh, Hr. destruct (runnable_facts st Hr) as (_ & _ & Hw). rewrite Hw.
+  unfold after_exec1, vm_step. destruct (execute _ _ _); reflexivity.
+Qed.
